@@ -54,6 +54,7 @@ type Obligation struct {
 	Output  string  `json:"output,omitempty"`
 	Expect  string  `json:"expect,omitempty"` // "fail" for canaries
 	Sweep   bool    `json:"sweep,omitempty"`
+	Quick   bool    `json:"-"` // recorded as an open known finding: expected to fail, short timeout
 	Values  map[string]string `json:"input_values,omitempty"`
 	vc      *VC
 	SMTFile string `json:"-"`
